@@ -34,7 +34,7 @@ bool nondet_bool(void);
 
 /* ---------------------------------------------------------------------------------------------------------- ghosts */
 #define C05_GHOSTS_NUM int nq, nc, nc2; uint64_t nacc; bool novf, nneg, nalpha, nhex; size_t nstart;
-#define C05_GHOSTS_STR
+#define C05_GHOSTS_STR int sq, sc, sout; unsigned su; bool shas, sobs; uint8_t sbyte; size_t sn, sstart;
 extern size_t g_len, g_off, g_mk;                 /* reader-contract ghosts (contracts/RW_types.h, stubs/libc.h) */
 extern size_t g_wk;                               /* ghost index into the bytes consumed by skip_whitespace_and_comments (input ghost) */
 extern uint8_t g_b0, g_b1, g_b2, g_b3, g_b4, g_b5, g_b6, g_b7;      /* VERIF_SMALL: the input bytes (for the native replay) */
@@ -51,14 +51,14 @@ struct c05_ghost {
   size_t cmk;                                     /* ghost index for skip_if's "matched bytes" clause */
   int root; size_t rootoff;                       /* first byte after whitespace and its position */
   int cq; size_t cn, cend; bool csync;            /* containers: output mirrors of the per-activation locals verif_q, ... */
-  int nt; uint64_t tok;                           /* number of abstract tokens, the last sixteen of them (replay) */
   int stage; size_t fin_off;                      /* entry points */
   C05_GHOSTS_NUM C05_GHOSTS_STR
 };
+extern int g_nt; extern uint64_t g_tok;            /* containers: number of abstract tokens, the last sixteen of them (4 bits each; for the replay) */
 extern struct c05_skip_ghost g_w;
 extern struct c05_ghost g_j;
 #define C05_GHOSTS_LEAF g_len, g_off, g_mk, g_w
-#define C05_GHOSTS C05_GHOSTS_LEAF, g_j
+#define C05_GHOSTS C05_GHOSTS_LEAF, g_j, g_nt, g_tok
 
 /* every reader call: name the reader state for the C01/C02 contracts (RD_REQ) */
 #define RD(call) (g_len = r->length, g_off = r->offset, g_mk = g_j.cmk, (call))
@@ -170,11 +170,11 @@ C05_ASSIGNS(r);
  *   dict:  { ws }  |  { ws S ws : ws V ws (, ws S ws : ws V ws)* }   (S = a value that is a string; anything else: parse_error) */
 enum { CQ_START = 0, CQ_OPEN = 1, CQ_AFTERV = 2, CQ_AFTERC = 3, CQ_ACC = 4, CQ_REJ = 5, CQ_CHILDFAIL = 6, CQ_TRUNC = 7,
        CQ_PENDING = 8, CQ_KEYOK = 9, CQ_COLON = 10, CQ_PENDV = 11 };
-/* token codes recorded for the replay (4 bits each, most recent token in the low nibble of g_j.tok):
+/* token codes recorded for the replay (4 bits each, most recent token in the low nibble of g_tok):
  * 1 open, 2 close, 3 comma, 4 colon, 5 value (not a string), 6 string value, 7 other byte, 8 end of input, 9 value that fails */
 #define C05_TOKCODE(c, close) ((c) == -1 ? 8 : (c) == (close) ? 2 : (c) == ',' ? 3 : (c) == ':' ? 4 : 7)
 #define C05_REC(code) (verif_tok = (verif_tok << 4) | (uint64_t)(code), verif_nt = verif_nt < 100 ? verif_nt + 1 : verif_nt)
-#define C05_C_SYNC (g_j.cq = verif_q, g_j.cn = verif_n, g_j.csync = verif_sync, g_j.cend = verif_end, g_j.nt = verif_nt, g_j.tok = verif_tok)
+#define C05_C_SYNC (g_j.cq = verif_q, g_j.cn = verif_n, g_j.csync = verif_sync, g_j.cend = verif_end, g_nt = verif_nt, g_tok = verif_tok)
 #define C05_C_ENTRY int verif_q = CQ_START; size_t verif_n = 0, verif_end = 0; bool verif_sync = 1; size_t verif_off0 = r->offset; \
                     int verif_nt = 0; uint64_t verif_tok = 0; g_j.de = disable_extensions; C05_C_SYNC
 /* the opening bracket */
@@ -185,7 +185,7 @@ enum { CQ_START = 0, CQ_OPEN = 1, CQ_AFTERV = 2, CQ_AFTERC = 3, CQ_ACC = 4, CQ_R
       if (verif_c == -1 || C05_ISCLOSER(verif_c)) C05_REC(C05_TOKCODE(verif_c, close)); \
       verif_q = verif_c == -1 ? CQ_TRUNC : verif_c == (close) ? ((verif_q == CQ_OPEN || !disable_extensions) ? CQ_ACC : CQ_REJ) : C05_ISCLOSER(verif_c) ? CQ_REJ : CQ_PENDING; \
       if (verif_q == CQ_ACC) verif_end = r->offset + 1; } \
-    C05_C_SYNC; }
+    C05_C_SYNC; C05_VARIANT; }
 /* token boundary after a value: comma or the closing bracket */
 #define C05_C_PEEK_C(close) { int verif_c = C05_PEEK(r); verif_sync = verif_sync && !C05_ISWS(verif_c); \
     if (verif_q == CQ_AFTERV) { C05_REC(C05_TOKCODE(verif_c, close)); \
@@ -199,7 +199,8 @@ enum { CQ_START = 0, CQ_OPEN = 1, CQ_AFTERV = 2, CQ_AFTERC = 3, CQ_ACC = 4, CQ_R
 #define C05_LIST_ENTRY C05_C_ENTRY
 #define C05_LIST_OPEN C05_C_OPEN
 #define C05_LIST_PEEK_A C05_C_PEEK_A(']')
-#define C05_LIST_PEEK_V g_j.pc = C05_PEEK(r); g_j.cmk = 0
+#define C05_VARIANT __CPROVER_assert(r->offset > verif_off0, "recursion variant: the recursive call parses a strictly shorter suffix of the input")
+#define C05_LIST_PEEK_V g_j.pc = C05_PEEK(r); g_j.cmk = 0; C05_VARIANT
 #define C05_LIST_CHILD_DONE C05_C_VAL_DONE(CQ_PENDING, verif_v)
 #define C05_LIST_PEEK_C C05_C_PEEK_C(']')
 
@@ -215,7 +216,7 @@ enum { CQ_START = 0, CQ_OPEN = 1, CQ_AFTERV = 2, CQ_AFTERC = 3, CQ_ACC = 4, CQ_R
 #define C05_DICT_PEEK_V { int verif_c = C05_PEEK(r); verif_sync = verif_sync && !C05_ISWS(verif_c); g_j.pc = verif_c; g_j.cmk = 0; \
     if (verif_q == CQ_COLON) { if (verif_c == -1 || C05_ISCLOSER(verif_c)) C05_REC(C05_TOKCODE(verif_c, '}')); \
       verif_q = verif_c == -1 ? CQ_TRUNC : C05_ISCLOSER(verif_c) ? CQ_REJ : CQ_PENDV; } \
-    C05_C_SYNC; }
+    C05_C_SYNC; C05_VARIANT; }
 #define C05_DICT_VAL_DONE C05_C_VAL_DONE(CQ_PENDV, verif_v)
 #define C05_DICT_PEEK_C C05_C_PEEK_C('}')
 
@@ -251,7 +252,7 @@ __CPROVER_assigns(verif_exc, r->offset, separator, expected_separator, __CPROVER
                   verif_q, verif_n, verif_end, verif_sync, verif_nt, verif_tok) \
 __CPROVER_loop_invariant(verif_exc == 0 && r->offset <= r->length && r->offset > verif_off0 && verif_sync) \
 __CPROVER_loop_invariant(ret->kind == (kindv) && ret->count == verif_n && !ret->is_string) \
-__CPROVER_loop_invariant(g_j.cq == verif_q && g_j.cn == verif_n && g_j.csync == verif_sync && g_j.cend == verif_end) \
+__CPROVER_loop_invariant(g_j.cq == verif_q && g_j.cn == verif_n && g_j.csync == verif_sync && g_j.cend == verif_end && g_nt == verif_nt && g_tok == verif_tok) \
 __CPROVER_loop_invariant((verif_q == CQ_OPEN && separator == (open) && expected_separator == (open)) || \
                          (expected_separator == ',' && ((separator == ',' && verif_q == CQ_AFTERC) || \
                                                         (separator == (close) && verif_q == CQ_ACC && verif_end == r->offset) || \
@@ -303,8 +304,17 @@ enum { NQ_START = 0, NQ_MINUS = 1, NQ_ZERO = 2, NQ_INT = 3, NQ_DOT = 4, NQ_FRAC 
 __CPROVER_requires(g_nw <= 18 && g_nwx <= 15) \
 __CPROVER_requires(r->offset + (root_type_ch == '-') + g_nw >= r->length || !C05_ISDIGIT(r->data[r->offset + (root_type_ch == '-') + g_nw])) \
 __CPROVER_requires(r->offset + (root_type_ch == '-') + 2 + g_nwx >= r->length || !C05_ISHEX(r->data[r->offset + (root_type_ch == '-') + 2 + g_nwx]))
+#define C05_POW10(k) ((k) == 0 ? 1ull : (k) == 1 ? 10ull : (k) == 2 ? 100ull : (k) == 3 ? 1000ull : (k) == 4 ? 10000ull : (k) == 5 ? 100000ull : (k) == 6 ? 1000000ull : \
+  (k) == 7 ? 10000000ull : (k) == 8 ? 100000000ull : (k) == 9 ? 1000000000ull : (k) == 10 ? 10000000000ull : (k) == 11 ? 100000000000ull : (k) == 12 ? 1000000000000ull : \
+  (k) == 13 ? 10000000000000ull : (k) == 14 ? 100000000000000ull : (k) == 15 ? 1000000000000000ull : (k) == 16 ? 10000000000000000ull : (k) == 17 ? 100000000000000000ull : 1000000000000000000ull)
+/* extra loop invariants of the digit loops: the cursor stays in front of the witness, the accumulator is below base^digits */
+#define C05_NUM_INV_DEC __CPROVER_loop_invariant(r->offset <= g_j.nstart + (negative ? 1 : 0) + g_nw && (uint64_t)int_data < C05_POW10(r->offset - g_j.nstart - (negative ? 1 : 0)))
+#define C05_NUM_INV_HEX __CPROVER_loop_invariant(r->offset >= g_j.nstart + (negative ? 1 : 0) + 2 && r->offset <= g_j.nstart + (negative ? 1 : 0) + 2 + g_nwx && \
+                                                 ((uint64_t)int_data >> (4 * (r->offset - g_j.nstart - (negative ? 1 : 0) - 2))) == 0)
 #else
 #define C05_NUM_DOMAIN
+#define C05_NUM_INV_DEC
+#define C05_NUM_INV_HEX
 #endif
 extern size_t g_nw, g_nwx;
 void JSON_parse_number(StringReader* r, bool disable_extensions, char root_type_ch, JVal* ret)
@@ -324,23 +334,59 @@ EFULL((verif_exc == 0 && g_j.nq != NQ_DEAD) ==> !C05_NUM_HAS_NEXT(g_j.nq, g_j.nc
 /* kind: integer <=> neither fraction nor exponent */
 EFULL((verif_exc == 0 && C05_NUM_ACCEPTING(g_j.nq)) ==> ((ret->kind == JV_INT) == C05_NUM_INTEGRAL(g_j.nq)))
 /* integer value = Horner fold of the digits, for every numeral whose magnitude fits int64 */
-EFULL((verif_exc == 0 && C05_NUM_INTEGRAL(g_j.nq) && !g_j.novf) ==> (ret->kind == JV_INT && ret->i == (g_j.nneg ? -(int64_t)g_j.nacc : (int64_t)g_j.nacc)))
+EFULL((verif_exc == 0 && C05_NUM_INTEGRAL(g_j.nq) && !g_j.novf) ==> (ret->kind == JV_INT && (uint64_t)ret->i == (g_j.nneg ? 0 - g_j.nacc : g_j.nacc)))
 /* hexadecimal notation only when extensions are enabled */
 EFULL(g_j.nhex ==> !disable_extensions)
 C05_ASSIGNS(r);
 
 /* ================================================================================================== string (O-2) */
-#define C05_STR_ENTRY
-#define C05_STR_STEP 0
+/* Ghost automaton for RFC 8259 section 7:  " ( unescaped | \ ( " \ / b f n r t | u XXXX ) )* "  advanced over exactly the bytes the code
+ * consumes; it also produces the decoded bytes (count g_j.sn, the byte at the ghost index g_sk in g_j.sbyte).
+ * The statement limits \u escapes to U+0000..U+00FF (above: rejected with parse_error).
+ * Observations, not counted as violations (g_j.sobs): the code also accepts `\xHH` (an extension JSON.hh does not list) and raw
+ * control characters below 0x20 inside strings -- both also in strict mode. */
+enum { SQ_START = 0, SQ_BODY = 1, SQ_ESC = 2, SQ_U1 = 3, SQ_U2 = 4, SQ_U3 = 5, SQ_U4 = 6, SQ_X1 = 7, SQ_X2 = 8, SQ_END = 9, SQ_DEAD = 10 };
+#define C05_SIMPLE_ESC(c) ((c) == '"' || (c) == '\\' || (c) == '/' || (c) == 'b' || (c) == 'f' || (c) == 'n' || (c) == 'r' || (c) == 't')
+#define C05_ESC_BYTE(c) ((c) == 'b' ? 8 : (c) == 'f' ? 12 : (c) == 'n' ? 10 : (c) == 'r' ? 13 : (c) == 't' ? 9 : (c))
+#define C05_HEXACC(su, c) ((((su) << 4) | (unsigned)C05_HEXVAL(c)) & 0xFFFFu)
+#define C05_STR_NEXT(q, c, su) ((c) == -1 ? (q) : \
+  (q) == SQ_START ? ((c) == '"' ? SQ_BODY : SQ_DEAD) : \
+  (q) == SQ_BODY ? ((c) == '"' ? SQ_END : (c) == '\\' ? SQ_ESC : SQ_BODY) : \
+  (q) == SQ_ESC ? (C05_SIMPLE_ESC(c) ? SQ_BODY : (c) == 'u' ? SQ_U1 : (c) == 'x' ? SQ_X1 : SQ_DEAD) : \
+  ((q) == SQ_U1 || (q) == SQ_U2 || (q) == SQ_U3 || (q) == SQ_X1) ? (C05_ISHEX(c) ? (q) + 1 : SQ_DEAD) : \
+  (q) == SQ_U4 ? ((C05_ISHEX(c) && C05_HEXACC(su, c) <= 0xFF) ? SQ_BODY : SQ_DEAD) : \
+  (q) == SQ_X2 ? (C05_ISHEX(c) ? SQ_BODY : SQ_DEAD) : SQ_DEAD)
+/* the byte c completes a character: does the spec emit a decoded byte, and which */
+#define C05_STR_HAS_OUT(q, c, su) ((c) != -1 && (((q) == SQ_BODY && (c) != '"' && (c) != '\\') || ((q) == SQ_ESC && C05_SIMPLE_ESC(c)) || \
+                                   (((q) == SQ_U4 || (q) == SQ_X2) && C05_ISHEX(c) && C05_HEXACC(su, c) <= 0xFF)))
+#define C05_STR_OUT(q, c, su) ((q) == SQ_BODY ? (c) : (q) == SQ_ESC ? C05_ESC_BYTE(c) : (int)(C05_HEXACC(su, c) & 0xFF))
+#define C05_STR_ENTRY g_j.sq = SQ_START; g_j.sc = 0; g_j.su = 0; g_j.sout = 0; g_j.shas = 0; g_j.sobs = 0; g_j.sbyte = 0; g_j.sn = 0; g_j.sstart = r->offset
+#define C05_STR_STEP (g_j.sc = C05_PEEK(r), \
+  g_j.shas = C05_STR_HAS_OUT(g_j.sq, g_j.sc, g_j.su), g_j.sout = C05_STR_OUT(g_j.sq, g_j.sc, g_j.su), \
+  g_j.sbyte = (g_j.shas && g_j.sn == g_sk) ? (uint8_t)g_j.sout : g_j.sbyte, g_j.sn = g_j.sn + (g_j.shas ? 1 : 0), \
+  g_j.sobs = g_j.sobs || (g_j.sq == SQ_ESC && g_j.sc == 'x') || (g_j.sq == SQ_BODY && g_j.sc >= 0 && g_j.sc < 0x20), \
+  g_j.sq = C05_STR_NEXT(g_j.sq, g_j.sc, g_j.su), \
+  g_j.su = (g_j.sc != -1 && C05_ISHEX(g_j.sc)) ? C05_HEXACC(g_j.su, g_j.sc) : 0)
 #define C05_STR_CAP(r) ((r)->length)
 #define C05_STR_PUSH(s, c) vstr_push_back(s, c)
 #define C05_STR_EXIT
+#define C05_SQ_INHEX(q) ((q) == SQ_U1 || (q) == SQ_U2 || (q) == SQ_U3 || (q) == SQ_U4 || (q) == SQ_X1 || (q) == SQ_X2)
 void JSON_parse_string(StringReader* r, JVal* ret)
 C05_RD_REQ(r) C05_RET_REQ
 __CPROVER_requires(r->offset < r->length && r->data[r->offset] == '"')
 C05_TOTAL(r)
 __CPROVER_ensures(verif_exc == 0 ==> r->offset > __CPROVER_old(r->offset))
 __CPROVER_ensures(verif_exc == 0 ==> (ret->kind == JV_STRING && ret->is_string == true))
+/* accepted => the consumed bytes are a complete RFC string (up to the two observations); the cursor is behind the closing quote */
+EFULL(verif_exc == 0 ==> g_j.sq == SQ_END)
+/* an escape RFC 8259 does not allow, a non-hex digit in \u / \x, \u above U+00FF: parse_error */
+EFULL(g_j.sq == SQ_DEAD ==> verif_exc == EXC_parse_error)
+/* nothing else is rejected, except an input that ends inside the string: out_of_range (parse_error inside a hex escape) */
+EFULL(verif_exc == EXC_out_of_range ==> (r->offset == r->length && (g_j.sq == SQ_BODY || g_j.sq == SQ_ESC)))
+EFULL(verif_exc == EXC_parse_error ==> (g_j.sq == SQ_DEAD || (r->offset == r->length && C05_SQ_INHEX(g_j.sq))))
+/* decoded text: length and every byte (ghost index g_sk) are the spec's */
+EFULL(verif_exc == 0 ==> ret->count == g_j.sn)
+EFULL((verif_exc == 0 && g_sk < g_j.sn) ==> ret->sk_byte == g_j.sbyte)
 C05_ASSIGNS(r);
 
 /* ============================================================================================= string entry points */
